@@ -237,7 +237,9 @@ parse_mot(struct ttx_magazine *mag, uint8_t *raw, int packet)
 	{
 		struct ttx_pop_link *pop;
 
-		pop = &mag->pop_link[0][(packet - 19) * 4];
+		/* Packets 19, 20: Level 2.5 links 0 ... 7; packets 22, 23
+		   (now 21, 22): Level 3.5 links 0 ... 7. */
+		pop = &mag->pop_link[(packet - 19) >> 1][((packet - 19) & 1) * 4];
 
 		for (i = 0; i < 4; raw += 10, pop++, i++) {
 			int n[10];
@@ -290,7 +292,7 @@ parse_mot(struct ttx_magazine *mag, uint8_t *raw, int packet)
 			if (err < 0)
 				continue;
 
-			mag->drcs_link[0][index] = (((n[0] & 7) ? : 8) << 8) + (n[1] << 4) + n[2];
+			mag->drcs_link[index >> 3][index & 7] = (((n[0] & 7) ? : 8) << 8) + (n[1] << 4) + n[2];
 
 			/* n[3] number of subpages ignored */
 		}
